@@ -87,6 +87,9 @@ type scanner struct {
 	lengthComputing bool
 
 	hasTrailingCharacters bool
+
+	// afterSlash the last byte read was the first slash of an annotation.
+	afterSlash bool
 }
 
 func newScanner(file *fs.File, oo ...scannerOption) *scanner {
@@ -195,6 +198,14 @@ func (s *scanner) Next() (lexeme.LexEvent, error) {
 }
 
 func (s *scanner) processTail() (lexeme.LexEvent, error) {
+	// The text may not break off in the middle of an annotation: after the first
+	// slash, or inside a block annotation that is never closed.
+	if s.afterSlash {
+		err := kit.NewJSchemaError(s.file, errs.ErrUnexpectedEOF.F())
+		err.SetIndex(s.dataSize - 1)
+		return lexeme.LexEvent{}, err
+	}
+
 	if s.stack.Len() == 0 {
 		return lexeme.LexEvent{}, errEOS
 	}
@@ -213,11 +224,6 @@ func (s *scanner) processTail() (lexeme.LexEvent, error) {
 	case lexeme.InlineAnnotationTextBegin:
 		return s.processingFoundLexeme(lexeme.InlineAnnotationTextEnd)
 
-	case lexeme.MultiLineAnnotationBegin:
-		return s.processingFoundLexeme(lexeme.MultiLineAnnotationEnd)
-
-	case lexeme.MultiLineAnnotationTextBegin:
-		return s.processingFoundLexeme(lexeme.MultiLineAnnotationTextEnd)
 	}
 
 	err := kit.NewJSchemaError(s.file, errs.ErrUnexpectedEOF.F())
@@ -680,6 +686,7 @@ func (s *scanner) stateNul(c byte) (state, error) {
 }
 
 func (s *scanner) stateAnyAnnotationStart(c byte) (st state, err error) {
+	s.afterSlash = false
 	switch c {
 	case '/':
 		s.annotation = true
@@ -835,5 +842,6 @@ func (s *scanner) switchToAnnotation() error {
 	}
 	s.returnToStep.Push(s.step)
 	s.step = s.stateAnyAnnotationStart
+	s.afterSlash = true
 	return nil
 }
